@@ -394,6 +394,19 @@ func runC11(w *World, r *Report) {
 			}
 		}
 		r.Check(ok, "C11.survives", h.Name()+" records the state", h.Pos(), "cp.State = state.state", "the state is not saved at this kind of interrupt")
+		// … and only its OWN state: a graph without a state generator running inside a stateful parent sees the
+		// parent's state in its context; saving that into its own checkpoint makes the resumed nested run work on
+		// a deserialised copy, and what its nodes write after the resume never reaches the parent
+		fRunCtx := w.Field("compose", "runner", "runCtx")
+		for _, fw := range fieldWrites(h) {
+			if sameField(fw.field, cpState) && isLoadOfField(fw.val, fState) {
+				own := hasGuard(fw.in.Block(), func(g guard) bool {
+					return guardNonNil(g, func(v ssa.Value) bool { return isLoadOfField(v, fRunCtx) })
+				})
+				r.Check(own, "C11.survives", h.Name()+" records only the graph's own state", fw.in.Pos(), "guarded by r.runCtx != nil (the graph has a state generator)",
+					"the state found in the context is saved into this graph's checkpoint even when the graph has no state of its own (it is the enclosing graph's): after a resume the nested graph works on a private copy and the parent loses every update made by the nested graph's nodes")
+			}
+		}
 	}
 
 	// ---- state-required
